@@ -101,7 +101,7 @@ def api_cases(ctx):
         yield (tag, s)
     # exhaustive small scope (thorough: all; quick: a seeded slice)
     total = run = 0
-    keep_p = 1.0 if ctx.thorough else min(1.0, 5000 * ctx.budget / 245008)
+    keep_p = 1.0 if ctx.thorough else min(1.0, 4000 * ctx.budget / 245008)
     for c in dagproj.enum_small(3, 3):
         total += 1
         if keep_p < 1.0 and rng.random() >= keep_p:
@@ -119,7 +119,7 @@ def api_cases(ctx):
     ctx.extra["small_scope_run"] = run
     ctx.exhaustive = ctx.thorough
     # random up to 8 tasks; about half of them are made ill-formed
-    for _ in range(ctx.scale(1200, 12000)):
+    for _ in range(ctx.scale(1000, 12000)):
         ill = rng.random() < 0.45
         yield from with_control("rand", dagproj.gen_random(rng, nt=(2, 8), cyclic_p=0.8 if ill else 0.0, shared_p=0.35 if ill else 0.0))
     # cycles of every length, through files / PythonNodes / after / mixed
@@ -207,7 +207,7 @@ def e2e_cases(ctx):
     cases = [(tag, s) for tag, s in corpus()]
     # a seeded slice of the small scope with every after-form
     small = list(dagproj.enum_small(3, 3)) if ctx.thorough else None
-    n_small = ctx.scale(30, 600)
+    n_small = ctx.scale(24, 600)
     if small is None:
         # reservoir over the generator without materialising it
         pick = []
@@ -225,10 +225,12 @@ def e2e_cases(ctx):
         s = dagproj.small_to_spec(c, rng.randrange(27), rng.randrange(1 << len(cols)) if rng.random() < 0.3 else 0, one_module=rng.random() < 0.7)
         if rng.random() < 0.5:
             dagproj.add_kinds(rng, s)
+        else:
+            dagproj.add_forms(rng, s)
         dagproj.add_spellings(rng, s)
         s["stale"] = rng.random() < 0.4
         cases.append(("small", s))
-    for _ in range(ctx.scale(40, 600)):
+    for _ in range(ctx.scale(32, 600)):
         ill = rng.random() < 0.45
         cases.append(("rand", dagproj.gen_random(rng, nt=(2, 8), cyclic_p=0.8 if ill else 0.0, shared_p=0.35 if ill else 0.0)))
     for _ in range(ctx.scale(1, 6)):
@@ -326,7 +328,8 @@ def check_e2e(ctx, cases):
         obs = rec["obs1"]
         ids = sorted(t["id"] for t in s["tasks"])
         canon = ["e2e", [[t["id"], t["module"], t["deps"], t["prods"], t["after"], t.get("after_style"), sorted(t.get("spell", {}).items())] for t in s["tasks"]],
-                 s.get("py"), s.get("stale"), s.get("pk"), s.get("dirs"), s.get("subdirs"), sorted((s.get("opts") or {}).items())]
+                 s.get("py"), s.get("stale"), s.get("pk"), s.get("dirs"), s.get("subdirs"), sorted((s.get("opts") or {}).items()),
+                 sorted((s.get("pyval") or {}).items()), [t.get("dep_form") for t in s["tasks"]], [t.get("prod_style") for t in s["tasks"]]]
         ctx.case(canon, an["ill"] or any(t["deps"] or t["after"] for t in s["tasks"]),
                  {"layer": "e2e", "tasks": [{k: t[k] for k in ("id", "deps", "prods", "after", "spell") if t.get(k) or k == "id"} for t in s["tasks"]],
                   "py": s.get("py"), "ill_formed": an["ill"], "exit": obs.get("exit"), "second_build_exit": rec.get("obs2", {}).get("exit")})
@@ -340,6 +343,12 @@ def check_e2e(ctx, cases):
         for kind in ("py", "pk", "dirs"):
             if used & set(s.get(kind, [])):
                 ctx.dist[f"e2e:has-{kind}"] += 1
+        pyset, pkset = set(s.get("py", [])), set(s.get("pk", []))
+        for t in s["tasks"]:
+            if any(n in pyset or n in pkset for n in t["deps"]):
+                ctx.dist[f"e2e:dep-form={t.get('dep_form', 'bare')}"] += 1
+        if used & {int(k) for k in (s.get("pyval") or {})}:
+            ctx.dist["e2e:has-py-with-initial-value"] += 1
         for f in rec["forms"].values():
             ctx.dist[f"e2e:after-form={f}"] += 1
         for t in s["tasks"]:
@@ -349,7 +358,8 @@ def check_e2e(ctx, cases):
             ctx.dist[f"e2e:cyclelen={min(an['cycle_len'], 12)}"] += 1
         rep = {"layer": "e2e", "spec": s, "tag": tag}
         desc = (f"tasks {[[t['id'], t['deps'], t['prods'], t['after']] for t in s['tasks']]}, py {s.get('py')}, pickle {s.get('pk')}, "
-                f"directory nodes {s.get('dirs')}, module folders {bool(s.get('subdirs'))}, options {s.get('opts')}")
+                f"directory nodes {s.get('dirs')}, in-memory nodes with initial value {sorted(s.get('pyval') or {})}, "
+                f"dependency forms {[t.get('dep_form', 'bare') for t in s['tasks']]}, module folders {bool(s.get('subdirs'))}, options {s.get('opts')}")
         if obs.get("raised") or obs.get("died"):
             ctx.violation(f"build() raised {obs.get('raised')} ({desc})", dict(rep, expect="no-raise"), None)
             continue
